@@ -691,7 +691,7 @@ theorem compile_gexpr (fr : Bool) : ∀ (fuel : Nat),
           rw [emit_run_S, List.append_assoc]
         case call sp ty base args sw =>
           rcases okGE_call_inv fr _ _ _ _ _ hok with
-            ⟨isp, ity, name, g, f, si, rfl, rfl, hthrow, hprint, hoka, hone⟩ | ⟨msp, mty, b, rfl, rfl, rfl, hfr, hb⟩
+            ⟨isp, ity, name, g, f, si, rfl, rfl, hthrow, hprint, hoka, hone⟩ | ⟨msp, mty, b, nm, rfl, rfl, rfl, hfr, _, hb⟩
           rotate_left
           · -- `l.len()`
             simp only [Frag.cdE] at hd
